@@ -273,6 +273,10 @@ impl Context {
             ir::TypeLayer::StructTemplate(id) => {
                 self.ensure_struct_template(id, template_args, modifier, loc)
             }
+            ir::TypeLayer::Enum(id) if self.search_scopes(|s| s.owning_enum) == Some(id) => {
+                // The underlying type is selected after the last value so the enum is incomplete inside its own definition
+                Err(TyperError::UnknownType(name.into(), loc))
+            }
             _ => {
                 // Normal types do not expect any template arguments
                 if template_args.is_empty() {
